@@ -16,7 +16,10 @@ WATCHDOG = {"quick": 1500, "thorough": 3300}
 REQUIRED_CLASSES = {t: ["dim:3d", "dim:2d_with_z", "dim:2d_without_z", "elements:linear", "elements:quadratic", "elements:mixed_types",
                         "ids:contiguous", "ids:gaps", "ids:large_int32", "rows:elements_in_descending_or_shuffled_order",
                         "rows:elements_interleaved", "sets:node", "sets:element", "variables:NODE", "variables:ELEMENT_NODAL",
-                        "history:several_geometries", "history:several_states", "fault:in_add_geometry", "fault:in_add_variable"]
+                        "history:several_geometries", "history:several_states", "fault:in_add_geometry", "fault:in_add_variable", "fault:container_holds_earlier_variable",
+                        "fault:container_created_by_the_failing_call",
+                        "misuse:duplicate_geometry", "misuse:duplicate_variable", "misuse:variable_for_unknown_geometry",
+                        "misuse:variable_columns_missing_in_frame", "misuse:geometry_without_x_column"]
                     for t in ("quick", "thorough")}
 REQUIRED_MONITORS = ["roundtrip:index(elements_by_id,node_order_kept)", "roundtrip:coordinates", "roundtrip:NODE_variable",
                      "roundtrip:ELEMENT_NODAL_variable", "roundtrip:sets", "import_repeatable", "filter_by_set==members",
@@ -27,7 +30,7 @@ RULE = ("generated mesh frames (2D with/without z, 3D; linear and quadratic elem
         "each element kept), NODE and ELEMENT_NODAL variables, node and element sets, 1..3 geometries and states; every case is "
         "exported, imported (twice) and compared. Fault enumeration: a dry run counts the h5py create_dataset/create_group/"
         "attrs.create calls one add_geometry / add_variable makes; then the call is repeated once per k with the k-th h5py call "
-        "raising OSError. Non-trivial: mesh with >= 2 elements and a variable; distinct = distinct mesh/history.")
+        "raising OSError. Misuse histories: a random selection of calls that must raise (duplicate geometry / variable, unknown geometry, unknown variable without columns or location, columns missing in the frame, geometry without x column), each followed by a listing comparison, then a read-back and a correct call. Non-trivial: mesh with >= 2 elements and a variable; distinct = distinct mesh/history.")
 ASSUMPTIONS = ["ids fit into int32 (VMAP stores ids as int32)", "a mesh frame defines the node order of an element by the order of its rows",
                "NODE variables carry one value per node (equal on all rows of the node)",
                "exhaustive within one add_* call: every h5py create call it makes is failed once"]
@@ -62,6 +65,9 @@ def generate(ctx):
     for i in range(nf):
         yield {"kind": "faults", "dim": dims[i % 2], "order": "linear", "mixed": False, "ids": ["contiguous", "gaps"][i % 2],
                "rows": ["sorted", "blocks_shuffled"][i % 2], "target": ["add_geometry", "add_variable"][i % 2], "rseed": int(rng.integers(0, 2**31))}
+    for i in range(ctx.scaled({"quick": 48, "thorough": 1600}[ctx.tier])):
+        yield {"kind": "misuse", "dim": dims[i % 3], "order": "linear", "mixed": bool(i % 4 == 0), "ids": ["contiguous", "gaps"][i % 2],
+               "rows": ["sorted", "blocks_shuffled"][i % 2], "rseed": int(rng.integers(0, 2**31))}
 
 
 def make_mesh(case, rng, ctx=None):
@@ -165,6 +171,8 @@ def run_case(case, ctx):
     with tempfile.TemporaryDirectory(prefix="pv-c20-") as tmp:
         if case["kind"] == "roundtrip":
             _roundtrip(case, ctx, rng, tmp)
+        elif case["kind"] == "misuse":
+            _misuse(case, ctx, rng, tmp)
         else:
             _faults(case, ctx, rng, tmp)
 
@@ -256,6 +264,69 @@ def _roundtrip(case, ctx, rng, tmp):
         imp._file.close()
 
 
+def _misuse(case, ctx, rng, tmp):
+    """histories with calls that must raise (wrong use, unusable data): each leaves the file as it was, later calls still work"""
+    from pylife.vmap import VMAPExport
+    _tags(case, ctx, None)
+    mech = _mech(case)
+    base_df = make_mesh(case, rng)
+    new_df = make_mesh(case, rng)
+    coords = ["x", "y", "z"] if case["dim"] != "2d_without_z" else ["x", "y"]
+    ctx.nontrivial(True)
+    p = os.path.join(tmp, "m.vmap")
+    ex = VMAPExport(p)
+    ex.add_geometry("BASE", base_df)
+    ex.add_variable("STATE-1", "BASE", "DISPLACEMENT", base_df)
+    ex.add_variable("STATE-2", "BASE", "STRESS_CAUCHY", base_df)
+    bad_cols = new_df.drop(columns=["S11"])
+    no_x = new_df.drop(columns=["x"])
+    calls = [
+        ("duplicate_geometry", lambda: ex.add_geometry("BASE", new_df)),
+        ("variable_for_unknown_geometry", lambda: ex.add_variable("STATE-1", "NOPE", "DISPLACEMENT", new_df)),
+        ("duplicate_variable", lambda: ex.add_variable("STATE-1", "BASE", "DISPLACEMENT", new_df)),
+        ("unknown_variable_without_columns", lambda: ex.add_variable("STATE-1", "BASE", "MY_OWN", base_df)),
+        ("unknown_variable_without_location", lambda: ex.add_variable("STATE-1", "BASE", "MY_OWN", base_df, column_names=["dx"])),
+        ("location_of_wrong_type", lambda: ex.add_variable("STATE-1", "BASE", "MY_OWN", base_df, column_names=["dx"], location=2)),
+        ("variable_columns_missing_in_frame", lambda: ex.add_variable("STATE-1", "BASE", "STRESS_CAUCHY", bad_cols)),
+        ("geometry_without_x_column", lambda: ex.add_geometry("BROKEN", no_x)),
+        ("node_set_for_unknown_geometry", lambda: ex.add_node_set("NOPE", base_df.index.get_level_values("node_id")[:2], base_df, "s")),
+    ]
+    order = rng.permutation(len(calls))
+    for i in order[: int(rng.integers(3, len(calls) + 1))]:
+        name, fn = calls[int(i)]
+        ctx.tag("misuse:" + name)
+        before = _listing(p)
+        raised = None
+        try:
+            fn()
+        except Exception as e:
+            raised = e
+        ctx.check("fault:failed_call_raises", raised is not None, observed="no exception", detail={"call": name})
+        after = _listing(p)
+        new = [x for x in after if x not in before]
+        # nothing of a geometry or a variable may have been added; empty state / geometry container groups under VARIABLES are
+        # outside the statement (DESIGN 9.5)
+        leftover = [x for x in new if x.startswith("VMAP/GEOMETRY/") or x.count("/") >= 4]
+        ctx.check("fault:no_partial_geometry_or_variable", not leftover, observed=leftover[:5], detail={"call": name, "raised": repr(raised)[:160]})
+        ctx.check("fault:earlier_content_intact", all(x in after for x in before), observed=[x for x in before if x not in after][:5],
+                  detail={"call": name, "raised": repr(raised)[:160]})
+    # the file is still usable: what was there reads back, and a correct call works
+    try:
+        be = expected_frame(base_df)
+        got = _import(p, "BASE", "STATE-1", ["DISPLACEMENT"], ctx, mech, be, "BASE")
+        gots = _import(p, "BASE", "STATE-2", ["STRESS_CAUCHY"], ctx, mech, be, "BASE")
+        ok = list(got.index) == list(be.index) and all(np.array_equal(got[c].to_numpy(), be[c].to_numpy()) for c in coords + ["dx", "dz"]) and all(
+            np.array_equal(gots[c].to_numpy(), be[c].to_numpy()) for c in ["S11", "S23"])
+        ex.add_geometry("NEW", new_df)
+        ex.add_variable("STATE-1", "NEW", "STRESS_CAUCHY", new_df)
+        ne = expected_frame(new_df)
+        got2 = _import(p, "NEW", "STATE-1", ["STRESS_CAUCHY"], ctx, mech, ne, "NEW")
+        ok = ok and list(got2.index) == list(ne.index) and all(np.array_equal(got2[c].to_numpy(), ne[c].to_numpy()) for c in coords + ["S11", "S12"])
+        ctx.check("fault:retry_succeeds_and_round_trips", ok, observed=list(got.index)[:6], expected=list(be.index)[:6], tags=mech, detail="after misuse")
+    except Exception as e:
+        ctx.fail("fault:retry_succeeds_and_round_trips", observed=f"{type(e).__name__}: {e}"[:300], tags=mech, detail="after misuse")
+
+
 def _listing(path):
     import h5py
     out = []
@@ -272,6 +343,9 @@ def _faults(case, ctx, rng, tmp):
     new_df = make_mesh(case, rng)
     target = case["target"]
     ctx.tag("fault:in_" + target)
+    prepopulated = bool(rng.random() < 0.5)
+    if target == "add_variable":
+        ctx.tag("fault:container_holds_earlier_variable" if prepopulated else "fault:container_created_by_the_failing_call")
     ctx.nontrivial(True)
     coords = ["x", "y", "z"] if case["dim"] != "2d_without_z" else ["x", "y"]
 
@@ -281,6 +355,9 @@ def _faults(case, ctx, rng, tmp):
         ex.add_variable("STATE-1", "BASE", "DISPLACEMENT", base_df)
         if target == "add_variable":
             ex.add_geometry("NEW", new_df)
+            if prepopulated:
+                # the state/geometry container of the failing call already holds a variable, which must survive the roll-back
+                ex.add_variable("STATE-1", "NEW", "DISPLACEMENT", new_df)
         return ex
 
     def call(ex):
